@@ -129,3 +129,18 @@ Theorem C04_compaction_crash_points_harmless :
                       leftover0 hdr0 leftover hdr hist k00 k0 k = Ok nd /\
         forall c, ceq c (nd c) (run S M capply hist (init_node S cinit) c).
 Proof. exact compaction_crash_points_harmless. Qed.
+
+(** the lag of the log cut is necessary: a cut at the NEW snapshot's index while the catalogue still names
+    the previous snapshot loses the entries in between (witness on the register node of SM/SnapshotInst.v) *)
+From RN Require Import SM.SnapshotInst.
+Theorem C04_cut_at_new_snapshot_refuted :
+  let live := run N N rapply reg_hist (init_node N rinit) in
+  let restarted :=
+      start_up_cut N N rapply rload rinit
+                   (Some (2, build_snapshot N rsnap (run N N rapply (firstn 2 reg_hist) (init_node N rinit))))
+                   6 (skipn 6 reg_hist) (length reg_hist) in
+  live KTable = 7%N /\ restarted KTable = 0%N /\
+  (forall c, start_up_cut N N rapply rload rinit
+                   (Some (2, build_snapshot N rsnap (run N N rapply (firstn 2 reg_hist) (init_node N rinit))))
+                   2 (skipn 2 reg_hist) (length reg_hist) c = live c).
+Proof. exact cut_at_new_snapshot_refuted. Qed.
